@@ -21,6 +21,7 @@ get <k> => <v|~>        has <k> => true|false     set <k> <v> => ok      del <k>
 iter <s> <e> => <items> riter <s> <e> => <items>  rootdump => <items>
 iopen <id> <asc 1|0> <s> <e> => ok    inext <id> <n> => <items>    idrain <id> => <items>
 ```
+`bset <k> <v>` / `bdel <k>` => ok: a write on the store *below* a cache wrap that holds nothing.
 `pend <p> <k,k,…> => <e|~>` is a direct `PrefixEndBytes(p)` call; the keys are probes for the bound.
 `<items>` is `[]` or `k:v,k:v,…`; a nil key / nil value argument must answer `PANIC`.
 -/
@@ -141,6 +142,21 @@ def step (st : St) (pre post : List String) : St × Verdict :=
           judge "iter-open-drain" line impl (renderItems it.spec) (renderItems it.model))
       | none => (st, .bad "unknown iterator")
     | none => (st, .bad "idrain args")
+  | "bset" :: _ | "bdel" :: _ =>
+    -- a set/delete on the store below a cache wrap that holds nothing (fresh or just written)
+    let arg : Option (Bytes × Option Bytes) :=
+      match pre with
+      | ["bset", k, v] => do let k ← Bytes.parse k; let v ← Bytes.parse v; pure (k, some v)
+      | ["bdel", k] => do let k ← Bytes.parse k; pure (k, none)
+      | _ => none
+    match arg, st.model, st.spec.layers with
+    | some (k, ov), ⟨n + 1, (t, .cache c)⟩, .cache [] :: ls =>
+      if c ≠ CacheKV.empty then (st, .bad "below-op: model cache not empty") else
+      let t' : T n := match ov with | some v => (ops n).set t k v | none => (ops n).del t k
+      let r := Spec.put ls st.spec.root k ov
+      ({ st with model := ⟨n + 1, (t', .cache c)⟩, spec := ⟨.cache [] :: r.1, r.2⟩ },
+        if impl = "ok" then .ok else .diff s!"{line} impl={impl} model=ok")
+    | _, _, _ => (st, .bad "below-op needs an untouched cache wrap on top")
   | ["pend", p, ks] =>
     match Bytes.parse p, (ks.splitOn ",").mapM Bytes.parse, Bytes.parseOpt impl with
     | some p, some ks, some e =>
